@@ -17,7 +17,8 @@ import YarlProofs.C09
   Continued in C01HeadlineMore.lean (theorems that need modules which import this file): C01Str.lean imports
   this file, so the headline theorems that rest on it — the stored authority of a reachable URL is ASCII, the
   whole string form is ASCII / well-escaped, user and password of EVERY reachable URL — are stated there as
-  `C01_headline_…`; the GAPS block below cites them.
+  `C01_headline_…`; the GAPS block below cites them.  Continued again in C01HeadlineMore3.lean (C01 over the closure
+  of ALL entry points, `encoded=True` included: C01ReachE.lean, GAPS 5).
 -/
 set_option linter.unusedVariables false
 namespace Yarl
@@ -350,9 +351,39 @@ GAPS:
     Otherwise the clause is FALSE for the scheme: with_scheme and build (which lower-cases its argument since fix
     e21485a, but does not screen it) store any text — KNOWN FINDING F-C01-scheme (C01_headline_str_ascii_fails_for,
     C01_headline_str_ascii_fails_for_build_scheme).
- 5. Domain: `Reach` covers auto-encoding entry points only; `encoded=True` (constructor, build, with_path,
-    joinpath) is outside C01 by its wording.  `UOp.joinRef` takes any `WFUrl` record as reference; `CacheOK`
-    must be assumed of it (C01_headline_cache_ok_step) — harmless for API-made references.
+ 5. Domain.  `Reach` / `ReachS` cover the auto-encoding entry points only; `encoded=True` (constructor, build, with_path,
+    joinpath) is read as outside C01 by its wording ("in auto-encoding mode" — said of the constructor only; for build /
+    with_path / joinpath this is an INTERPRETATION).  What becomes of C01 under the other reading is now
+    CLOSED by C01_reachE_str_ascii_fails_for_encoded, C01_reachE_components_python, C01_reachE_components_ascii,
+    C01_reachE_netloc_ascii, C01_reachE_str_ascii, C01_reachE_str_ascii_stored, C01_reachE_str_ascii_iff_stored,
+    C01_reachE_with_path_encoded_iff, C01_reachE_ascii_history_not_necessary, C01_reachE_str_ascii_instance
+    (C01ReachE.lean, over `ReachE` / `ReachEX` of ReachE.lean: the closure of BOTH constructor modes, BOTH build modes,
+    the 18 operations other than `UOp.joinRef`, with_path(encoded=True), joinpath(encoded=True) and join), see
+    C01_headline_all_entry_points_domain, C01_headline_all_entry_points_any_record,
+    C01_headline_str_ascii_fails_for_encoded_true, C01_headline_all_entry_points_components_python,
+    C01_headline_all_entry_points_components_ascii, C01_headline_all_entry_points_netloc_ascii,
+    C01_headline_all_entry_points_str_ascii, C01_headline_str_ascii_iff_stored_text_ascii,
+    C01_headline_with_path_encoded_str_ascii_iff_argument_ascii, C01_headline_encoded_ascii_history_not_necessary,
+    C01_headline_percent_escapes_fails_for_encoded_true (C01HeadlineMore3.lean).  Proved:
+      (a) over all entry points clause 1 ("pure ASCII", "bytes(url) never fails") is FALSE — one witness per
+          `encoded=True` entry point (`URL('/é', encoded=True)`, `build(path='/é', encoded=True)`,
+          `with_path('/é', encoded=True)`, `joinpath('é', encoded=True)`); every cache-free record of five Python
+          strings is obtainable through `build(encoded=True)`; unconditionally only "path / query / fragment are Python
+          strings" survives.  By design (`encoded=True` is documented as the caller's responsibility; same root as
+          KNOWN FINDING F-C19-encoded-str); NOT recorded as a C01 finding because of the reading above;
+      (b) clause 1 is TRUE over all entry points when every text handed over with `encoded=True` is ASCII — plus the
+          hypotheses the auto-encoding API needs already: `ZoneAscii` (item 1a), `HostOracleAscii` (items 1b, 7),
+          ASCII with_scheme / build(scheme=) arguments (item 1e).  Path / query / fragment alone need only the first;
+      (c) for ANY URL: `str` ASCII ⇒ stored scheme, path, query, fragment ASCII; ⇔ when the stored authority and cache are
+          ASCII (`AsciiNet`); for a last step with_path(p, encoded=True): ⇔ `p` ASCII.  No converse of (b) over whole
+          histories (a later step may overwrite the text: C01_headline_encoded_ascii_history_not_necessary);
+      (d) clauses 2–4 ("every '%' starts an escape", "only the characters RFC 3986 allows", "no raw spaces …") are LOST
+          with `encoded=True` even for ASCII texts (C01_headline_percent_escapes_fails_for_encoded_true:
+          'http://H/a%zz/b c/../d/e f'); no sufficient condition on the `encoded=True` texts is stated for them.
+    STILL OPEN in this item: `UOp.joinRef` (model artefact, not in `ReachE`) takes any `WFUrl` record as reference;
+    `CacheOK` must be assumed of it (C01_headline_cache_ok_step) — harmless for API-made references.  `ReachE` asks
+    Python strings of ALL `build` texts (`BuildAllPy`, cf. item 8) and has no `UOp.joinRef`; the `query=` argument of
+    build(encoded=True) is not among the texts (b) constrains, and need not be (it is rendered by the query quoter even then).
  6. NEW (side condition of item 2).  The guard `37 ∉ hostinfo u.netloc` of C01_headline_percent_escapes_whole_string is
     about the STORED authority text.  C01_headline_host_percent_guard_meaning (from C01_raw_host_no_pct,
     C01_hostinfo_no_pct_of_written) gives: for a reachable URL the guard implies "raw_host contains no '%'"; for a
